@@ -27,6 +27,9 @@ _RULE = ("scenarios: 1-6 requests with random HPACK representation choices, HEAD
          "(hook counters) and records frames, dispatches and gauges; non-trivial = the server sent HEADERS, RST_STREAM or GOAWAY")
 
 
+from checklib.oracles import SERVER_ORACLES
+
+
 def _p(expl):
     return {"suites": ["server"], "rule": _RULE, "explanation": expl, "assumptions": _SRV_ASSUME}
 
@@ -44,3 +47,7 @@ PROPS = {
     "C20": _p("dispatch iff well-formed (RFC 7540 8.1.2) on the server model + lockstep correspondence"),
     "C18": _p("SETTINGS acknowledged once in order, peer limits obeyed, on the server model + lockstep correspondence"),
 }
+
+for _pid, _o in SERVER_ORACLES.items():
+    if _pid in PROPS:
+        PROPS[_pid]["impl_oracle"] = _o
